@@ -230,6 +230,16 @@ func generateCase(property string, tier string, run, seed uint64) (*RunCase, *ra
 			cases = realiseC14Cases(rng, cases)
 			rc.C14Real = true
 		}
+		if n := len(cases); rc.Leg == "c14" && n > 0 && !cases[n-1].Ponder && rng.IntN(3) == 0 {
+			// the session ends with the GUI going away while the last search runs
+			c := &cases[n-1]
+			lim := c.Own
+			if c.MoveTime > 0 {
+				lim = c.MoveTime
+			}
+			c.EOFAfterUS = 1 + rng.Int64N(min(lim*1000, 20_000_000))
+			c.Noise, c.Lag, c.LagUS = nil, 0, 0
+		}
 		rc.C14 = cases
 	}
 	return rc, rng
